@@ -82,6 +82,7 @@ fn op_nums(op: &Op) -> Vec<i64> {
         Op::OBulk { n, pat } => vec![*n as i64, *pat as i64],
         Op::KBulk { n, pat } => vec![*n as i64, *pat as i64],
         Op::SIns { a, b, exp } => vec![*a, *b, *exp as i64],
+        Op::SBulk { a, b, n, exp } => vec![*a, *b, *n as i64, *exp as i64],
         Op::SQuery { a, b, take } => vec![*a, *b, *take as i64],
         _ => vec![],
     }
@@ -103,10 +104,12 @@ fn with_num(op: &Op, idx: usize, v: i64) -> Op {
         (Op::OFirst { p }, 0) | (Op::OHRead { p }, 0) | (Op::OHWrite { p }, 0) | (Op::OHDel { p }, 0) => *p = i,
         (Op::OBulk { n, .. }, 0) => *n = i.max(1),
         (Op::KBulk { n, .. }, 0) => *n = i.max(1),
-        (Op::KBulk { pat, .. }, 1) => *pat = i.clamp(0, 1) as u8,
+        (Op::KBulk { pat, .. }, 1) => *pat = i.clamp(0, 9) as u8,
         (Op::OBulk { pat, .. }, 1) => *pat = i.clamp(0, 4) as u8,
-        (Op::SIns { a, .. }, 0) | (Op::SQuery { a, .. }, 0) => *a = v,
-        (Op::SIns { b, .. }, 1) | (Op::SQuery { b, .. }, 1) => *b = v,
+        (Op::SIns { a, .. }, 0) | (Op::SQuery { a, .. }, 0) | (Op::SBulk { a, .. }, 0) => *a = v,
+        (Op::SIns { b, .. }, 1) | (Op::SQuery { b, .. }, 1) | (Op::SBulk { b, .. }, 1) => *b = v,
+        (Op::SBulk { n, .. }, 2) => *n = i.max(1),
+        (Op::SBulk { exp, .. }, 3) => *exp = i,
         (Op::SIns { exp, .. }, 2) => *exp = i,
         (Op::SQuery { take, .. }, 2) => *take = i,
         _ => {}
@@ -142,7 +145,7 @@ fn compress_times(t: &Trace) -> Trace {
                 now = sat(now, dt.max(0) as i64);
                 times.insert(now);
             }
-            Op::KIns { exp, .. } | Op::SIns { exp, .. } => {
+            Op::KIns { exp, .. } | Op::SIns { exp, .. } | Op::SBulk { exp, .. } => {
                 times.insert(exp as i64);
             }
             Op::KExport { dt } => {
@@ -176,7 +179,7 @@ fn compress_times(t: &Trace) -> Trace {
                 *dt = (rank(new_now) - rank(now)) as i32;
                 now = new_now;
             }
-            Op::KIns { exp, .. } | Op::SIns { exp, .. } => *exp = rank(*exp as i64) as i32,
+            Op::KIns { exp, .. } | Op::SIns { exp, .. } | Op::SBulk { exp, .. } => *exp = rank(*exp as i64) as i32,
             Op::KExport { dt } => {
                 let at = sat(now, (*dt).max(0) as i64);
                 *dt = (rank(at) - rank(now)).max(0) as i32;
@@ -318,7 +321,7 @@ pub fn shrink(trace: &Trace, failure: &Failure, budget: Duration, max_cands: u64
             c.cfg.t0 = 0;
             for s in c.steps.iter_mut() {
                 match &mut s.op {
-                    Op::KIns { exp, .. } | Op::SIns { exp, .. } => {
+                    Op::KIns { exp, .. } | Op::SIns { exp, .. } | Op::SBulk { exp, .. } => {
                         if *exp != i32::MAX {
                             *exp = exp.saturating_sub(d)
                         }
